@@ -1,4 +1,5 @@
 import BB.Proofs.PersistFull2
+import BB.Proofs.PersistRetry
 /-!
 # C02 - After a crash and restart no object is served with wrong bytes
 
@@ -125,6 +126,35 @@ theorem C02_no_overwrite_after_restart {c : Cfg} (hss : 0 < c.ss) {w : World} (h
     · exact List.mem_append_left _ (List.mem_append_left _ hb)
     · exact List.mem_append_left _ (List.mem_append_right _ hb)
 
+/-- **A failed data sync is retried, not treated as completed** - the regular one and the final one
+of a shutdown alike (`f` is `isFinalSync`).  After `dataSyncer()` returned an error the syncer of
+the model is back before the sync with the same flag and an unchanged block list; it cannot call
+`NotifySyncCompleted`, cannot start its state write, cannot begin the next iteration: all it can do
+is call `dataSyncer()` again.  (This is the line of `notifyAndSyncDataLocked` the correspondence run
+checks step by step, with failing syncs injected into regular and final syncs.) -/
+theorem C02_failed_sync_retried {w w' : World} (hf : w.syncFail = some w') :
+    ∃ f, w.g1 = .syncing f ∧ w'.g1 = .started f ∧ w'.pbl = w.pbl ∧
+      (∀ sd, w'.g1Completed sd = none) ∧ w'.syncEnd = none ∧ w'.g1Start = none ∧ w'.swBegin 1 = none ∧
+      ∃ w'', w'.syncBegin = some w'' ∧ w''.g1 = .syncing f := by
+  obtain ⟨f, a1, a2, a3, _, _, a6, a7, a8, a9, a10⟩ := syncFail_retries hf
+  exact ⟨f, a1, a2, a3, a6, a7, a8, a9, a10⟩
+
+/-- **What `NotifySyncCompleted` exposes is durable.** Whenever the syncer is about to call
+`NotifySyncCompleted` (after a regular or a final sync, in any reachable world, however many syncs
+failed before), the data sync that returned last returned nil, and every object finalized in an
+epoch the call is going to expose - the epochs and offsets the next state file may list - was
+copied before a data sync that completed was entered.  Uses A1, A2. -/
+theorem C02_completed_exposes_only_durable {c : Cfg} (hss : 0 < c.ss) {w w' : World} (hr : Reach c w) {sd : Bool}
+    (hg : w.g1Completed sd = some w') :
+    (∃ f, w.g1 = .synced f) ∧
+    ∀ o ∈ w.objs, ∀ b ∈ w.pbl.blocks, ∀ e, b.gid = o.gid → o.fin = some e →
+      e < w.pbl.oldestEpoch + w.pbl.syncingEpochs → o.durable = true ∧ o.off + o.size ≤ b.syncing := by
+  obtain ⟨f, hf⟩ := g1Completed_synced hg
+  refine ⟨⟨f, hf⟩, ?_⟩
+  intro o ho b hb e hgid hfin hlt
+  obtain ⟨r1, _, r3⟩ := (inv_reach hss hr).epoch.syncing o ho b hb e hgid hfin hlt
+  exact ⟨r3 f hf, r1⟩
+
 /-! ## The hypotheses are satisfiable: a concrete history
 
 Geometry: 4-byte sectors, 8-byte blocks, 3 blocks.  One upload of 5 bytes under key 7 (content
@@ -201,6 +231,12 @@ example : (⟨1, 0, 7, 0, 0, 5, 1⟩ : PRec) ∈ recsOf w17.idx ∧
 held with attach cursor 8 = ⌈5/4⌉·4. -/
 example : ∃ o ∈ w18.objs, o.mine = false ∧ ∃ b ∈ held w18.pbl w18.zombies, b.gid = o.gid ∧ b.base = 8 :=
   ⟨_, List.mem_cons_self, rfl, _, List.mem_cons_self, rfl, rfl⟩
+
+/-- `C02_failed_sync_retried`: the data sync of `w7` may fail; `C02_completed_exposes_only_durable`:
+`w8` is about to call `NotifySyncCompleted`, exposing epoch 1 with the object finalized in it. -/
+example : (∃ w', w7.syncFail = some w') ∧ w8.g1Completed false = some w9 ∧
+    ∃ o ∈ w8.objs, o.fin = some 1 ∧ 1 < w8.pbl.oldestEpoch + w8.pbl.syncingEpochs :=
+  ⟨⟨_, rfl⟩, by rfl, _, List.mem_cons_self, rfl, by decide⟩
 
 end Example
 
